@@ -513,6 +513,7 @@ def scripted_expected(tag, prog, inp, script):
     from pipeline import tlc_expected
     q = copy.copy(prog)
     q.inputs = [list(inp)]
+    q.guides = [list(script)]
     res = tlc_expected(tag + "_exp", [q], workers=2, timeout=300)
     if not res.ok:
         raise ToolError("TLC failed computing the expected behaviour: %s" % res.error)
@@ -574,6 +575,113 @@ def corrupt(run, rnd):
     return r
 
 
+def fine_part(out, pid, tier, byid, reqs, fine_runs, proj, what, max_leads=40):
+    """Fine-grained recordings (one event per lexgen_util operation, hook H4) against LexUtil.tla.
+    A rejected recording or a violated protocol invariant is a LEAD: the harness searches for a
+    witness (the consumed prefix followed by every short continuation) on which the observable
+    behaviour differs from RefLexer; only such a witness is reported."""
+    from pipeline import validate_fine
+    rnd_c = __import__("random").Random(len(fine_runs))
+    # binding self-test: corrupted fine recordings must be rejected
+    import copy
+    canaries = []
+    for r in rnd_c.sample(fine_runs, min(10, len(fine_runs))):
+        c = copy.deepcopy(r)
+        evs = [k for k, e in enumerate(c["fine"]) if e["op"] == "N" and e["c"] >= 0]
+        if not evs:
+            continue
+        e = c["fine"][rnd_c.choice(evs)]
+        e["me"] = [e["me"][0], e["me"][1] + 1, e["me"][2]]
+        c["i"] = -1 - len(canaries)
+        canaries.append(c)
+    tlc, ok, rej = validate_fine(pid, fine_runs + canaries, workers=8 if tier == "quick" else 14)
+    for c in canaries:
+        if c["i"] in ok:
+            raise ToolError("LexUtil.tla accepted a deliberately corrupted fine-grained recording")
+    leads = []
+    for r in fine_runs:
+        if r["i"] in rej:
+            info = rej[r["i"]]
+            leads.append((r, "operation %s at event %d is not an action of LexUtil.tla" % (info["op"], info["at"]), info["consumed"]))
+        elif ok.get(r["i"]) is not None:
+            ld = ok[r["i"]]
+            leads.append((r, "protocol invariant %s violated at event %d" % (ld["inv"], ld["at"]), ld["consumed"]))
+    n_wit = 0
+    # one witness search for all leads: per program (first few leads each) the consumed prefix
+    # followed by every continuation of up to 3 characters, plus the recorded input itself
+    import copy as _c
+    per_prog = {}
+    for r, why, consumed in leads:
+        per_prog.setdefault(r["p"], [])
+        if len(per_prog[r["p"]]) < 3:
+            per_prog[r["p"]].append((r, why, consumed))
+    chosen = list(per_prog.items())[:max_leads]
+    wprogs = []
+    whys = {}
+    for pid_, lst in chosen:
+        prog = byid[pid_]
+        sig = prog.sigma
+        exts = [[]]
+        layer = [[]]
+        for _ in range(3):
+            layer = [e + [c] for e in layer for c in sig]
+            exts += layer
+        uniq = []
+        guides = []
+        for r, why, consumed in lst:
+            base = r["inp"][:max(consumed, 0)]
+            script = reqs[r["i"]]["script"]
+            for x in [r["inp"]] + [base + e for e in exts]:
+                if x not in uniq:
+                    uniq.append(x)
+                    # the decisions the recorded run was offered, then default decisions
+                    guides.append(list(script) + [0] * 8)
+        q = _c.copy(prog)
+        q.inputs = uniq
+        q.guides = guides
+        wprogs.append(q)
+        whys[pid_] = lst[0][1]
+    found_progs = set()
+    if wprogs:
+        try:
+            fr = replay_family(pid + "_witness", wprogs, workers=8, tlc_timeout=900)
+        except ToolError as ex:
+            out.notes.append("witness search failed: %s" % str(ex)[:200])
+            fr = None
+        if fr is not None:
+            for m in fr.mismatches:
+                prog = byid[m["req"]["p"]]
+                if prog.id in found_progs:
+                    continue
+                pe, pa = project_pair(proj, m["req"]["ev"], strip_lx(m["actual"]), prog)
+                if pe != pa:
+                    found_progs.add(prog.id)
+                    n_wit += 1
+                    out.violations.append({
+                        "key": "prog=%s input=%s script=%s ctor=0" % (
+                            prog.body().replace("\n", " ").replace("  ", " "), m["req"]["inp"], m["req"]["script"]),
+                        "desc": "%s (lead: %s; witness found by extending the consumed prefix): program %d input %s: expected %s, real lexer gave %s" % (
+                            what, whys[prog.id], prog.id, m["req"]["inp"], pe[:8], pa[:8]),
+                        "payload": {"kind": "replay", "program": prog.to_json(), "src": prog.body(),
+                                    "input": m["req"]["inp"], "script": m["req"]["script"], "ctor": 0,
+                                    "clone_at": -1, "sched": [], "expected": m["req"]["ev"],
+                                    "actual": strip_lx(m["actual"]), "lead": whys[prog.id]}})
+    n_note = 0
+    for pid_, lst in chosen:
+        if pid_ not in found_progs and n_note < 5:
+            n_note += 1
+            out.notes.append("LEAD without observable witness: program %d input %s: %s" % (
+                pid_, lst[0][0]["inp"][:20], lst[0][1]))
+    cov = out.coverage
+    cov["fine_recordings_validated"] = len(fine_runs)
+    cov["fine_recordings_rejected"] = len([r for r in fine_runs if r["i"] in rej])
+    cov["fine_protocol_leads"] = len(leads)
+    cov["fine_leads_with_witness"] = n_wit
+    cov["fine_states"] = tlc.distinct
+    cov["states"] = cov.get("states", 0) + tlc.distinct
+    cov["transitions"] = cov.get("transitions", 0) + tlc.states
+
+
 def trace_part(out, pid, tier, progs, ws, batches, seed, n_runs, maxlen, proj, what,
                ctors=(0,), extra_inputs=(), max_validate_len=80):
     """Run the real lexers freely on random inputs, validate every recorded run with TLC against
@@ -590,13 +698,18 @@ def trace_part(out, pid, tier, progs, ws, batches, seed, n_runs, maxlen, proj, w
         rs = random_inputs(rnd, p, n_runs, maxlen, extra_inputs)
         for r in rs:
             r["ctor"] = rnd.choice(list(ctors))
+            if len(r["inp"]) <= max_validate_len:
+                r["fine"] = True
         reqs.extend(rs)
     results = run_requests(ws, batches, reqs, pid)
     runs = []
+    fine_runs = []
     for i, (rq, rs) in enumerate(zip(reqs, results)):
         if rs is None:
             continue
         runs.append({"i": i, "p": rq["p"], "inp": rq["inp"], "ev": rs["ev"]})
+        if "fine" in rs:
+            fine_runs.append({"i": i, "p": rq["p"], "inp": rq["inp"], "fine": rs["fine"]})
     tovalidate = [r for r in runs if len(r["inp"]) <= max_validate_len]
     canaries = []
     for r in rnd.sample(tovalidate, min(20, len(tovalidate))):
@@ -632,6 +745,8 @@ def trace_part(out, pid, tier, progs, ws, batches, seed, n_runs, maxlen, proj, w
                         "clone_at": -1, "sched": [], "expected": exp, "actual": act,
                         "first_divergence": first_divergence(pe, pa)},
         })
+    if fine_runs:
+        fine_part(out, pid, tier, byid, reqs, fine_runs, proj, what)
     cov = out.coverage
     cov["random_runs_recorded"] = len(runs)
     cov["random_runs_validated_by_tlc"] = len(tovalidate)
@@ -2220,6 +2335,7 @@ def replay(pid, path):
     if kind == "replay":
         prog = Program.from_json(pl["program"])
         prog.inputs = [pl["input"]]
+        prog.guides = [list(pl["script"]) + [0] * 8]
         tag = pid + "_replay"
         ws, batches, failures = build_family(tag, [prog])
         if failures:
